@@ -97,16 +97,18 @@ def run_case(c):
         if inject is not None and counter[0] == inject:
             s.stop_training = True
         counter[0] += 1
+        # hooks may return anything (a running count, a metric value): a return value is not a stop request
+        return counter[0] if c.get("hooks_return") else None
 
     def mk(cb_id, kind):
         if kind == "class":
             class Rec(CallbackBase):
-                def on_train_start(self, s): rec(cb_id, "TS", s)
-                def on_train_end(self, s): rec(cb_id, "TE", s)
-                def on_epoch_start(self, s, e): rec(cb_id, "ES", s, e)
-                def on_epoch_end(self, s, e): rec(cb_id, "EE", s, e)
-                def on_batch_start(self, s, e, b): rec(cb_id, "BS", s, e, b)
-                def on_batch_end(self, s, e, b): rec(cb_id, "BE", s, e, b)
+                def on_train_start(self, s): return rec(cb_id, "TS", s)
+                def on_train_end(self, s): return rec(cb_id, "TE", s)
+                def on_epoch_start(self, s, e): return rec(cb_id, "ES", s, e)
+                def on_epoch_end(self, s, e): return rec(cb_id, "EE", s, e)
+                def on_batch_start(self, s, e, b): return rec(cb_id, "BS", s, e, b)
+                def on_batch_end(self, s, e, b): return rec(cb_id, "BE", s, e, b)
             return Rec()
         return LambdaCallback(on_train_start=lambda s: rec(cb_id, "TS", s), on_train_end=lambda s: rec(cb_id, "TE", s),
                               on_epoch_start=lambda s, e: rec(cb_id, "ES", s, e), on_epoch_end=lambda s, e: rec(cb_id, "EE", s, e),
@@ -117,6 +119,8 @@ def run_case(c):
         state.stop_training = True
     h0 = phash(state)
     kw = dict(epochs=E, pos_batch_size=B, starting_epoch=se, lr=0.1, k=1, callbacks=cbs, time=c.get("time", False))
+    if c.get("nbs") is not None:
+        kw["neg_batch_size"] = c["nbs"]
     if t != "positive":
         kw["input_bases"] = bases
     state.fit(data, **kw)
@@ -183,7 +187,7 @@ def sampled(draw, tier):
     ncb = draw(st.integers(1, 3))
     c = {"type": draw(st.sampled_from(gen.TYPES)), "N": draw(st.integers(1, 6)), "B": draw(st.integers(1, 4)), "se": draw(st.integers(0, 3)),
          "E": draw(st.integers(0, 4)), "cbs": [draw(st.sampled_from(["class", "lambda"])) for _ in range(ncb)], "time": draw(st.booleans()),
-         "seed": draw(st.integers(0, 2 ** 31 - 1))}
+         "seed": draw(st.integers(0, 2 ** 31 - 1)), "hooks_return": draw(st.booleans()), "nbs": draw(st.one_of(st.none(), st.integers(1, 6)))}
     mode = draw(st.sampled_from(["none", "preset", "inject", "inject", "inject"]))
     if mode == "preset":
         c["preset"] = True
@@ -203,6 +207,8 @@ def box(tier):
         nev = len(unstopped(se, E, nb))
         base = {"type": "positive", "N": N, "B": B, "se": se, "E": E, "cbs": ["class"], "box": True, "seed": 7}
         out.append(dict(base))
+        out.append(dict(base, hooks_return=True, nbs=B + 2))
+        out.append(dict(base, nbs=max(1, B - 1)))
         out.append(dict(base, preset=True))
         for j in range(nev):
             out.append(dict(base, stop_at=j))
